@@ -386,6 +386,22 @@ def transition(
         Tuple[PureSnapshot, List[ActionDefinition]]: The resulting snapshot
         and the actions that would have run.
     """
+    # 🏁 A finished machine ignores events, exactly like the interpreters do.
+    #    Forcing the probe back to "running" revived a completed snapshot:
+    #    the event was processed and the result reported as "active".
+    if snapshot.status in ("done", "error"):
+        return (
+            PureSnapshot(
+                state_ids=set(snapshot.state_ids),
+                configuration=set(snapshot.configuration),
+                context=copy.deepcopy(snapshot.context),
+                status=snapshot.status,
+                output=snapshot.output,
+                history=copy.deepcopy(getattr(snapshot, "history", None)),
+            ),
+            [],
+        )
+
     probe, recorded = _build_probe(machine, snapshot, None)
     probe.status = "running"
 
